@@ -7,36 +7,44 @@ the callback-count theorems.) -/
 namespace Taskpool
 open Pool
 
-/-- **exactly one registry**: no id is filed twice, neither inside one registry nor in two of them -/
-theorem C03_one_registry_partial (base : Nat) (h : History) (hn : ∀ x ∈ h, x.admits noSetSize = true)
-    (i : Nat) (c : Cfg) (p : Pool) (n : Nat)
-    (hc : ((World.init base).run h).cfgs[i]? = some c) (hp : ((World.init base).run h).pools[i]? = some p)
-    (hsz : c.size0 = .fin n) :
+/-- **exactly one registry**: in every pool of every reachable world — any size, bounded or not, any history,
+assignments to `pool_size` included — no id is filed twice, neither inside one registry nor in two of them -/
+theorem C03_one_registry (base : Nat) (h : History) (i : Nat) (c : Cfg) (p : Pool)
+    (hc : ((World.init base).run h).cfgs[i]? = some c) (hp : ((World.init base).run h).pools[i]? = some p) :
     (p.running ++ p.cancelledR ++ p.ended).Nodup ∧
     ∀ t, (t ∈ p.running → t ∉ p.cancelledR ∧ t ∉ p.ended) ∧ (t ∈ p.cancelledR → t ∉ p.running ∧ t ∉ p.ended) ∧
          (t ∈ p.ended → t ∉ p.running ∧ t ∉ p.cancelledR) := by
-  have hg := (World.reachable goodC_invariant base h hn).inv i c p hc hp n hsz
-  exact ⟨hg.reg.nd, fun t => nodup3_mem_disj hg.reg.nd t⟩
+  obtain ⟨_, hr⟩ := baseAll base h i c p hc hp
+  exact ⟨hr.nd, fun t => nodup3_mem_disj hr.nd t⟩
 
-/-- every id the pool files is the id of a task it created; a task counted as cancelled is past its worker (it is
-in, or on its way to, its cancel callback), and a task counted as ended has handed back its slot -/
-theorem C03_registries_meaning_partial (base : Nat) (h : History) (hn : ∀ x ∈ h, x.admits noSetSize = true)
-    (i : Nat) (c : Cfg) (p : Pool) (n : Nat)
-    (hc : ((World.init base).run h).cfgs[i]? = some c) (hp : ((World.init base).run h).pools[i]? = some p)
-    (hsz : c.size0 = .fin n) :
-    (∀ t ∈ p.cancelledR, ∃ tk : PTask, p.tasks[t]? = some tk ∧ tk.phase ≠ .created ∧ tk.phase ≠ .inWorker) ∧
+/-- every id the pool files is the id of a task it created; a task counted as running or cancelled still holds
+its slot, one counted as cancelled is past its worker (it is in, or on its way to, its cancel callback), and one
+counted as ended has handed back its slot -/
+theorem C03_registries_meaning (base : Nat) (h : History) (i : Nat) (c : Cfg) (p : Pool)
+    (hc : ((World.init base).run h).cfgs[i]? = some c) (hp : ((World.init base).run h).pools[i]? = some p) :
+    (∀ t ∈ p.running, ∃ tk : PTask, p.tasks[t]? = some tk ∧ tk.released = false) ∧
+    (∀ t ∈ p.cancelledR, ∃ tk : PTask, p.tasks[t]? = some tk ∧ tk.released = false ∧
+        tk.phase ≠ .created ∧ tk.phase ≠ .inWorker) ∧
     (∀ t ∈ p.ended, ∃ tk : PTask, p.tasks[t]? = some tk ∧ tk.released = true) ∧
     (∀ t, (t ∈ p.running ∨ t ∈ p.cancelledR ∨ t ∈ p.ended) → t < p.tasks.length) := by
-  have hg := (World.reachable goodC_invariant base h hn).inv i c p hc hp n hsz
-  exact ⟨fun t ht => by obtain ⟨tk, a, _, c, d⟩ := hg.reg.can t ht; exact ⟨tk, a, c, d⟩, hg.reg.fin,
-         fun t ht => hg.reg.lt t ht⟩
+  obtain ⟨_, hr⟩ := baseAll base h i c p hc hp
+  exact ⟨hr.run, hr.can, hr.fin, fun t ht => hr.lt t ht⟩
 
-/-- as long as nothing was lost, every task that still holds its slot counts as running or as cancelled -/
-theorem C03_complete_partial (base : Nat) (h : History) (hn : ∀ x ∈ h, x.admits noSetSize = true)
-    (i : Nat) (c : Cfg) (p : Pool) (n : Nat)
+/-- as long as nothing was lost (ghost bit, DESIGN §4.3), every task that still holds its slot counts as running or
+as cancelled: `num_running + num_cancelled + num_ended = tasks created − tasks forgotten` has no hidden fourth state -/
+theorem C03_complete_partial (base : Nat) (h : History) (i : Nat) (c : Cfg) (p : Pool)
     (hc : ((World.init base).run h).cfgs[i]? = some c) (hp : ((World.init base).run h).pools[i]? = some p)
-    (hsz : c.size0 = .fin n) (hl : p.lost = false) (t : Nat) (tk : PTask) (ht : p.tasks[t]? = some tk)
+    (hl : p.lost = false) (t : Nat) (tk : PTask) (ht : p.tasks[t]? = some tk)
     (hrel : tk.released = false) : t ∈ p.running ∨ t ∈ p.cancelledR :=
-  ((World.reachable goodC_invariant base h hn).inv i c p hc hp n hsz).reg.cpl hl t tk ht hrel
+  (baseAll base h i c p hc hp).2.cpl hl t tk ht hrel
+
+/-- a task in its worker, or not yet begun, or in its cancel callback has not handed back its slot (all pools, all
+histories) -/
+theorem C03_phase_vs_slot (base : Nat) (h : History) (i : Nat) (c : Cfg) (p : Pool)
+    (hc : ((World.init base).run h).cfgs[i]? = some c) (hp : ((World.init base).run h).pools[i]? = some p)
+    (t : Nat) (tk : PTask) (ht : p.tasks[t]? = some tk)
+    (hph : tk.phase = .created ∨ tk.phase = .inWorker ∨ tk.phase = .inCancelCb) : tk.released = false := by
+  apply (baseAll base h i c p hc hp).1 t tk ht
+  rcases hph with h | h | h <;> simp [NYR, h]
 
 end Taskpool
